@@ -1,5 +1,6 @@
 import PolyVerif.Lemmas.Ligate
 import PolyVerif.Lemmas.LigateSys
+import PolyVerif.Gen.CloneFacts
 /-
 C09 — GoldenGate returns exactly the plasmids the overhangs allow.
 
@@ -333,6 +334,15 @@ theorem ligate_order {pool' pool : List Fragment} (hp : pool'.Perm pool) {arr' a
 theorem ligate_schedule_perm (pool : List Fragment) {arr : List Str} (harr : arr.Perm (emitted pool)) (k : Key) :
     k ∈ (circularLigate pool arr).map key ↔ k ∈ (circularLigateDFS pool).map key :=
   ligate_order (List.Perm.refl pool) harr (List.Perm.refl _) k
+
+/-- Structural pin of the hand-transcribed goroutine system: the synchronisation vocabulary of the functions reachable
+from `clone.CircularLigate`, re-extracted from the source by harness/cmd/extract-clone on every run, is the one the Step
+system is written in (`expectedCloneFacts`, Model/Ligate.lean).  A change that brings in another mechanism (mutex,
+semaphore channel, `select`, `sync.Map`, a second collector, no channel at all) breaks this obligation even if every result
+stays the same; a restructuring inside the vocabulary (helpers, `range`, a buffered channel, one goroutine per seed) does not. -/
+theorem clone_structure_pinned :
+    (Gen.clonePrimitives, Gen.cloneSyncCalls, Gen.cloneStringChanCollectors, Gen.cloneStringChanSenders) = expectedCloneFacts := by
+  decide
 
 /-- no fuel-exhausted call in any spawn tree: the model recursion is the Go recursion -/
 theorem fuel_never_exhausted (pool : List Fragment) : ∀ w ∈ seedWorks pool, noStuck w = true := by
